@@ -21,7 +21,15 @@ pan tie    : harness/c14_pan.c includes src/player.c privately with the single c
              process_pan) redirected to a spy: pan sources read from the channel (pan.val, panbrello via macro.notepan, pan
              envelope via the real get_envelope, rpv, player mode, format, surround, s->mix) -> pan handed to the mixer and
              info_finalpan, compared with Xmp.MixLinear.processPan (command pp); the run must have exercised every source.
-search     : synthetic IT (instrument mode) / XM modules with each pan source of process_pan isolated and combined
+reset tie  : the member list of struct mixer_voice is generated from the preprocessed src/mixer.h (Lean list +
+             harness/c14_voice_members.h X-macro); in every tick of the tie runs every free voice is compared member by
+             member with the other free voices and, sampled (not-plainly-zero images first), with Xmp.MixKernel.resetValue
+             (command vr) - libxmp_virt_resetvoice / _resetchannel / virt_reset are the only writers of a free slot.
+search     : IT modules (gen_c14_synth.reuse_modules) in which a background voice is freed (sample end, fade to silence,
+             duplicate check, cut) and its slot is taken by a filtered note of another channel (resonant IFC/IFR, ramp /
+             anticlick residue, ping-pong/reverse flags), under the solo-sum oracle at several rates / interpolators and
+             with a mid-render xmp_set_position (libxmp_virt_reset: slots re-taken in a new order); reuse is measured.
+             synthetic IT (instrument mode) / XM modules with each pan source of process_pan isolated and combined
              (gen_c14_synth.pan_modules: channel pan, sample and instrument default pan, pan envelope, pitch-pan
              separation, random pan swing, panbrello Yxy in all waveforms, Pxy/Xxx/S8x, surround) under the separation
              oracle at the drawn separation, 100 and 37;
@@ -71,6 +79,10 @@ MANIFEST = dict(
          "the anticlick ramp by the voice volume; C14_kernel_no_wrap(_voices): the accumulator holds the true integer sum while voices x "
          "sampleBound x level < 2^31 (instances: 128 voices up to level 255 with filter, 63 voices at nominal full scale 1024, 31 at master "
          "200 %), C14_kernel_wrap_possible: beyond that it wraps and only the mod-2^32 statement holds; C14_kernel_mirror/_center: exchanging "
+         "C14_voice_reset_clears: a freed voice (model of libxmp_virt_resetvoice/_resetchannel/virt_reset over the member list generated "
+         "from mixer.h) is zero in every member the kernels and the voice loop read; C14_voice_reuse_independent/_same: the contributions "
+         "after a reset are those of a fresh slot, whatever the previous owner did - a voice's contribution depends only on its own "
+         "channel's history. "
          "left/right levels and ramps exchanges the words of every frame (mono samples; C14_kernel_mirror_stereo: stereo samples with the "
          "sample channels and filter memory exchanged too). C14_paula_adds/_silence/_bound/_mirror state the same "
          "for the four Paula (A500) kernels of src/mix_paula.c over their own bit-exact model, and C14_adders_superpose/C14_paula_is_adder "
@@ -115,7 +127,8 @@ REQUIRED = ["Xmp.MixLinear." + n for n in (
     "C14_kernel_solo_independent", "C14_kernel_silence", "C14_kernel_silence_noramp", "C14_kernel_bound",
     "C14_kernel_frac_range", "C14_kernel_fits", "C14_kernel_no_wrap", "C14_kernel_no_wrap_voices", "C14_kernel_levels",
     "C14_anticlick_bound", "C14_kernel_no_wrap_instances",
-    "C14_kernel_wrap_possible", "C14_kernel_mirror", "C14_kernel_mirror_stereo", "C14_kernel_center", "C14_kernel_refines", "contrib_eq_kernel",
+    "C14_kernel_wrap_possible", "C14_kernel_mirror", "C14_kernel_mirror_stereo", "C14_kernel_center",
+    "C14_voice_reset_clears", "C14_voice_reuse_independent", "C14_voice_reuse_same", "C14_kernel_refines", "contrib_eq_kernel",
     # helper facts the property-level statements cite (XmpProofs/MixKernel.lean)
     "shapes_recognised", "splineRow_abs", "splineRows_unit_gain", "lerp_product_fits", "spline_acc_fits", "preamp_fits",
     "filter_sum_fits", "filt_bound", "fetch_bound", "loopBuf_eq", "mixCalls_eq_tick",
@@ -123,6 +136,15 @@ REQUIRED = ["Xmp.MixLinear." + n for n in (
     "C14_paula_adds", "C14_paula_silence", "C14_paula_bound", "C14_paula_mirror", "ploopBuf_eq")]
 
 HARNESS = ("c14_mixlinear", ["c14_mixlinear.c"])
+
+
+def build_main_harness(variant="asan"):
+    """c14_mixlinear.c includes the generated member list of struct mixer_voice: its content is part of the build key"""
+    try:
+        hh = vlib.hash_str(open(gen_mixlinear.VHEADER).read())
+    except OSError:
+        hh = "none"
+    return vlib.build_harness(*HARNESS, variant=variant, defines=["C14_VOICE_MEMBERS_HASH=%s" % hh])
 KHARNESS = ("c14_kernel", ["c14_kernel.c"])
 PHARNESS = ("c14_pan", ["c14_pan.c"])
 NNA_WITNESSES = ["it_note_delay_nna.it"]      # F6 witness of DESIGN.md section 5, always in the silence set
@@ -201,6 +223,8 @@ def model_compare(ck, what, out, stats):
             nontrivial = any(x != "0" for x in ef[6:])
         elif kind == "pp":
             nontrivial = ef[:1] != ["0"]
+        elif kind == "vr":
+            nontrivial = True
         elif kind in ("k2", "pk"):      # the buffer after the call differs from the buffer before it
             nb = int(ef.index("|")) if "|" in ef else 0
             nontrivial = ef[nb + 1:] != c.split()[-(len(ef) - nb - 1):]
@@ -212,9 +236,10 @@ def model_compare(ck, what, out, stats):
             if stats["model_mismatch_" + kind] > 3:      # the first three per kind are reported, the rest counted
                 continue
             first = next((i for i, (a, b) in enumerate(zip(ef, gf)) if a != "*" and a != b), -1)
-            ck.unproved("correspondence %s%s vs the C (%s)" % ("Xmp." if kind in ("k2", "pk") else "Xmp.MixLinear.", 
+            ck.unproved("correspondence %s%s vs the C (%s)" % ("Xmp." if kind in ("k2", "pk", "vr") else "Xmp.MixLinear.", 
                 {"sum": "tick", "vol": "volLR/level/rampDelta", "kern": "kernel", "dmx": "outSample", "vt": "voiceTick",
-                 "mst": "voiceVol", "pan": "voicePan", "pp": "processPan/infoFinalPan (process_pan)", "k2": "MixKernel.run (bit-exact kernel)", "pk": "MixKernel.Paula.prun (bit-exact Paula kernel)"}.get(kind, kind), what),
+                 "mst": "voiceVol", "pan": "voicePan", "pp": "processPan/infoFinalPan (process_pan)",
+                 "vr": "MixKernel.resetValue (members of a free voice after libxmp_virt_resetvoice/_resetchannel/virt_reset)", "k2": "MixKernel.run (bit-exact kernel)", "pk": "MixKernel.Paula.prun (bit-exact Paula kernel)"}.get(kind, kind), what),
                 "case: %s\nreal : %s\nmodel: %s\nfirst differing field: %d" % (c[:600], e[:400], g[:400], first))
 
 
@@ -268,7 +293,7 @@ def kernel_tie(ck, stats, quick):
 def run(ck):
     ck.gen(gen_mixlinear.generate_all)
     ck.proofs(["XmpProps.C14"], required=REQUIRED, drivers=["drv_c14"])
-    exe = vlib.build_harness(*HARNESS)
+    exe = build_main_harness()
     quick = ck.tier == "quick"
     seed = ck.seed
     stats = {}
@@ -291,6 +316,11 @@ def run(ck):
                     bump(prefix + "_modules")
                     bump(prefix + "_k2_cases", int(d.get("k2", 0)))
                     bump(prefix + "_pk_cases", int(d.get("pk", 0)))
+                    for k in ("vr", "freed", "free_checked", "reuse", "reuse_filter", "reuse_ramp", "reuse_queued", "reuse_rev",
+                              "reuse_paula"):
+                        bump("voice_" + k, int(d.get(k, 0)))
+                        if prefix == "reuse_tie":
+                            bump("reuse_modules_" + k, int(d.get(k, 0)))
                     for k in ("maxvol", "maxlevel", "maxactive"):
                         stats["observed_" + k] = max(stats.get("observed_" + k, 0), int(d.get(k, 0)))
                     bump("observed_accumulator_wraps", int(d.get("wraps", 0)))
@@ -365,6 +395,18 @@ def run(ck):
         if n_ * 32768 * l_ < 2 ** 31 and int(st["wraps"]) > 0:
             ck.unproved("correspondence C14_kernel_no_wrap vs the C", "%s: %d voices x 32768 x level %d < 2^31 but %s words wrapped"
                         % (name, n_, l_, st["wraps"]))
+    # ---------------- voice-slot reuse across channels (filter memory, ramp / anticlick, reverse flags) ----------------
+    # IT modules in which a background voice of channel 1 is freed (sample end, fade to silence, duplicate check, cut)
+    # and the slot is then taken by a filtered note of another channel; every free voice of every tick is compared
+    # member by member (list generated from mixer.h) with the other free voices and, sampled, with Xmp.MixKernel.resetValue
+    reuse = gen_c14_synth.reuse_modules(os.path.join(vlib.OUT, "c14-synth"), seed)
+    ck.note("voice_reuse_modules", [os.path.basename(f) for f in reuse])
+    for interp in (1, 2):
+        tie_like("tie", 200 if quick else 500, reuse, "reuse_tie", env={"C14_INTERP": str(interp)})
+    for k in ("reuse_filter", "reuse_ramp", "reuse_rev", "freed"):
+        if stats.get("reuse_modules_" + k, 0) == 0:
+            ck.unproved("correspondence voice reuse coverage", "no voice slot changed owner with state of kind %r in the reuse modules" % k)
+
     # ---------------- regression configuration: lowest rate + Paula kernels ----------------
     allfiles = vlib.corpus_files()
     lmods = [f for f in allfiles if os.path.basename(f) in PAULA_WITNESSES]
@@ -469,6 +511,10 @@ def run(ck):
     oracle("sep", 140 if quick else 500, panmods, "sepstat", sep_stat)
     for mixv in (100, 37):
         oracle("sep", 140 if quick else 500, panmods, "sepstat", sep_stat, {"C14_MIX": str(mixv), "C14_POS": "0"})
+    # voice-slot reuse across channels: the new owner's audio must not depend on the previous owner being audible
+    for interp, rate in ((1, 44100), (2, 22050), (1, 8000)):
+        oracle("solosum", 220 if quick else 500, reuse, "solosumstat", solosum_stat, {"C14_INTERP": str(interp), "C14_RATE": str(rate)})
+    oracle("solosum", 220 if quick else 500, reuse, "solosumstat", solosum_stat, {"C14_INTERP": "1", "C14_JUMP": "1"})
     # A500 mode (Paula kernels, per-voice BLEP state) on Amiga modules: regression for the Paula state that
     # survived voice-slot reuse (signature superposition:solo_sum:a500)
     amods = [f for f in allfiles if os.path.basename(f) in A500_SOLOSUM_WITNESSES] + [f for f in synth if f.endswith(".mod")]
@@ -506,7 +552,8 @@ def run(ck):
 
 def replay(ck, rp):
     r = rp["replay"]
-    exe = vlib.build_harness(*HARNESS)
+    gen_mixlinear.generate_all()
+    exe = build_main_harness()
     if isinstance(r, list):       # unproved items: nothing to run on the real code
         for u in r:
             print("UNPROVED %s: %s" % (u.get("name"), u.get("detail", "")[:1500]))
